@@ -307,6 +307,11 @@ class QuantityInitSpec(FunctionSpec):
             raise OutOfSubset("derived Quantity.__init__ through the simple-branch contract")
         return ctx
 
+    def inline_when(self, I, f, args, kwargs):
+        # derived branch (composing map given): the real body is executed at the call site
+        a = args[1] if len(args) > 1 else kwargs.get("category")
+        return a is not None and a.pytype() == "OrderedDict"
+
     def resolution(self, R, st, c, u):
         """(guard_ok_direct, guard_ok_legacy, resolved unit term)"""
         v1 = R.valid(c, u, st)
